@@ -660,7 +660,9 @@ func checkC18Plugin(c C18Case) iso.Result {
 		return iso.Failf("harness: program does not parse: %v", err)
 	}
 	lt := linter.New(&config.LinterConfig{})
+	lintStart := time.Now()
 	lt.Lint(vcl, lcontext.New())
+	lintTook := time.Since(lintStart)
 	got := map[string]int{}
 	others := 0
 	// diagnostics of the program itself (same program without annotations)
@@ -698,8 +700,10 @@ func checkC18Plugin(c C18Case) iso.Result {
 	// falco gives every plugin run five seconds; on a saturated machine a run is killed now and then and is
 	// reported as failed. That explains missing diagnostics exactly when (a) nothing is reported that was not
 	// returned, (b) every message of one plugin is short by the same number of runs, and (c) there are at
-	// least as many additional failure reports as runs are short. Such a case decides nothing (counted).
-	if extra := others - wantOthers; extra > 0 {
+	// least as many additional failure reports as runs are short, (d) linting took five seconds or more.
+	// Such a case decides nothing (counted).
+	// (a run can only have been killed by that timeout if linting took at least the five seconds)
+	if extra := others - wantOthers; extra > 0 && lintTook >= 4900*time.Millisecond {
 		short := map[string]int{} // plugin prefix -> runs short
 		consistent := true
 		for m, n := range want {
